@@ -224,29 +224,41 @@ Proof.
       destruct (N.eqb c k) eqn:E; [apply N.eqb_eq in E; subst; vm_compute in H; discriminate|reflexivity] end.
 Qed.
 
-Lemma digit_not : forall c, is_digit c = true ->
-  N.eqb c ch_hyphen = false /\ N.eqb c ch_equals = false /\ N.eqb c ch_rparen = false /\ N.eqb c ch_comma = false /\
-  N.eqb c ch_apos = false /\ N.eqb c ch_quote = false /\ N.eqb c ch_dollar = false /\ N.eqb c ch_lparen = false.
+Lemma ascii_digit_cases : forall c, is_ascii_digit c = true ->
+  (c = 48 \/ c = 49 \/ c = 50 \/ c = 51 \/ c = 52 \/ c = 53 \/ c = 54 \/ c = 55 \/ c = 56 \/ c = 57)%N.
 Proof.
-  intros c H.
-  repeat split;
-    match goal with |- N.eqb c ?k = false =>
-      destruct (N.eqb c k) eqn:E; [apply N.eqb_eq in E; subst; vm_compute in H; discriminate|reflexivity] end.
+  intros c H. unfold is_ascii_digit in H. apply andb_prop in H. destruct H as [H1 H2].
+  apply N.leb_le in H1. apply N.leb_le in H2. lia.
+Qed.
+Lemma digit_not : forall c, is_ascii_digit c = true ->
+  N.eqb c ch_hyphen = false /\ N.eqb c ch_equals = false /\ N.eqb c ch_rparen = false /\ N.eqb c ch_comma = false /\
+  N.eqb c ch_apos = false /\ N.eqb c ch_quote = false /\ N.eqb c ch_dollar = false /\ N.eqb c ch_lparen = false /\
+  is_digit c = true /\ forall fl, num_digit fl c = true.
+Proof.
+  intros c H. pose proof (ascii_digit_cases c H) as K.
+  repeat (destruct K as [K|K]; [subst c; repeat split; try reflexivity; intros [f1 f2 f3]; destruct f3; reflexivity|]).
+  subst c; repeat split; try reflexivity; intros [f1 f2 f3]; destruct f3; reflexivity.
+Qed.
+Lemma not_digit_num : forall fl c, is_digit c = false -> num_digit fl c = false.
+Proof.
+  intros fl c H. unfold num_digit. destruct (fx_digit fl); [|exact H].
+  destruct (is_ascii_digit c) eqn:E; [|reflexivity].
+  destruct (digit_not c E) as (_ & _ & _ & _ & _ & _ & _ & _ & D & _). congruence.
 Qed.
 
-Lemma axis_facts2 : forall a, axis_ok a = true -> forall r,
+Lemma axis_facts2 : forall fl a, axis_ok a = true -> forall r,
   root_alone (axis_name a :: r) = false /\ N.eqb (tokc (axis_name a :: r)) ch_solidus = false /\
-  primary_kind (axis_name a :: gen_xpc_kw_axis_sep :: r) = PkPath /\
+  primary_kind fl (axis_name a :: gen_xpc_kw_axis_sep :: r) = PkPath /\
   N.eqb (tokc (axis_name a :: r)) ch_lbrack = false.
-Proof. destruct a; intros H r; try discriminate; repeat split; reflexivity. Qed.
+Proof. intros [f1 f2 f3]. destruct f3; destruct a; intros H r; try discriminate; repeat split; reflexivity. Qed.
 
-Lemma pk_root : forall r, look_c r ch_lparen 0 = false -> look_c r ch_colon 0 = false ->
-  primary_kind ([ch_solidus] :: r) = PkPath.
+Lemma pk_root : forall fl r, look_c r ch_lparen 0 = false -> look_c r ch_colon 0 = false ->
+  primary_kind fl ([ch_solidus] :: r) = PkPath.
 Proof.
-  intros r H1 H2. unfold primary_kind.
+  intros [f1 f2 f3] r H1 H2. unfold primary_kind.
   change (look_c ([ch_solidus] :: r) ch_lparen 1) with (look_c r ch_lparen 0).
   change (look_c ([ch_solidus] :: r) ch_colon 1) with (look_c r ch_colon 0).
-  rewrite H1, H2. reflexivity.
+  rewrite H1, H2. destruct f3; reflexivity.
 Qed.
 
 Lemma match_op_optoks : forall o X, N.eqb (tokc X) ch_equals = false ->
